@@ -5,6 +5,8 @@ use crate::flow::*;
 use crate::hz::*;
 use crate::props::c03;
 use crate::props::c04::ensure_spellings;
+use duckscript::types::command::{Command, CommandInvocationContext, CommandResult};
+use duckscript::types::runtime::Context;
 use serde_json::json;
 use std::collections::HashMap;
 use std::sync::atomic::{AtomicBool, AtomicU64, Ordering};
@@ -15,31 +17,91 @@ enum Kind {
     Scripted,
     Structured,
     StructuredForever,
+    /// a scripted program some of whose instructions run another script (same commands, same halt flag) to its end
+    Nested,
 }
 
 struct Prog {
     text: String,
     kind: Kind,
     on_error: bool,
+    /// the scripts run by `subrun i`
+    subs: Vec<String>,
+}
+
+/// `subrun i`: what an embedder's include-style command does - runs script i with the runner, on the commands and a
+/// copy of the variables of the caller, handing it the caller's halt flag; whatever the nested run returns, continue.
+#[derive(Clone)]
+struct SubRunCmd;
+impl Command for SubRunCmd {
+    fn name(&self) -> String {
+        "hz::SubRun".into()
+    }
+    fn aliases(&self) -> Vec<String> {
+        vec!["subrun".into()]
+    }
+    fn clone_and_box(&self) -> Box<dyn Command> {
+        Box::new(self.clone())
+    }
+    fn run(&self, c: CommandInvocationContext) -> CommandResult {
+        let i: usize = c.arguments.first().and_then(|a| a.parse().ok()).unwrap_or(usize::MAX);
+        let (text, before) = with_hz(|h| (h.side.get(i).cloned(), h.invocations));
+        let text = match text {
+            Some(t) => t,
+            None => return CommandResult::Crash("hz::SubRun: bad index".into()),
+        };
+        let mut ctx = Context::new();
+        ctx.commands = c.commands.clone();
+        ctx.variables = c.variables.clone();
+        let (env, _out) = make_env(Some(c.env.halt.clone()));
+        let _ = duckscript::runner::run_script(&text, ctx, Some(env));
+        with_hz(|h| {
+            if let Some(k) = h.halt_at {
+                if before < k && k <= h.invocations {
+                    h.counters.insert("halt-inside-nested-run".into(), 1);
+                }
+            }
+        });
+        CommandResult::Continue(None)
+    }
 }
 
 fn gen_prog(t: &mut Tape, st: &mut Stats) -> Prog {
-    match t.weighted(&[3, 3, 2]) {
+    match t.weighted(&[3, 3, 2, 2]) {
         0 => {
             let text = c03::program_text(t, st, 30);
-            Prog { text, kind: Kind::Scripted, on_error: t.flip() }
+            Prog { text, kind: Kind::Scripted, on_error: t.flip(), subs: vec![] }
+        }
+        3 => {
+            st.class("program-with-nested-runs");
+            let nsubs = 1 + t.below(2);
+            let subs: Vec<String> = (0..nsubs).map(|_| c03::program_text(t, st, 8)).collect();
+            let outer = c03::program_text(t, st, 12);
+            let mut lines: Vec<String> = outer.lines().map(|l| l.to_string()).collect();
+            let inserts = 1 + t.below(3);
+            for _ in 0..inserts {
+                let at = t.below(lines.len() + 1);
+                lines.insert(at, format!("subrun {}", t.below(nsubs)));
+            }
+            let mut text = lines.join("\n");
+            text.push('\n');
+            if t.chance(1, 3) {
+                st.class("non-terminating-program");
+                text = format!(":again emit 9999\n{}goto :again\n", text);
+            }
+            Prog { text, kind: Kind::Nested, on_error: t.flip(), subs }
         }
         k => {
             let p = gen_program(t, GenCfg { functions: false, failures: false, max_depth: 4, max_stmts: 30, long_loops: false });
             let r = render(&p, t, false);
             if k == 1 {
-                Prog { text: r.text, kind: Kind::Structured, on_error: false }
+                Prog { text: r.text, kind: Kind::Structured, on_error: false, subs: vec![] }
             } else {
                 // a script that would otherwise loop forever
                 st.class("non-terminating-program");
                 let spelling = *t.pick_ref(&["while true", "while tick forever 1000000", ":again"]);
                 let text = if spelling == ":again" { format!(":again emit 9999\n{}goto :again\n", r.text) } else { format!("{}\n{}end\n", spelling, r.text) };
-                Prog { text, kind: Kind::StructuredForever, on_error: false }
+                Prog { text, kind: Kind::StructuredForever, on_error: false, subs: vec![] }
             }
         }
     }
@@ -52,8 +114,21 @@ fn context_for(p: &Prog) -> duckscript::types::runtime::Context {
             c03::register(&mut c, p.on_error);
             c
         }
+        Kind::Nested => {
+            let mut c = bare_context();
+            c03::register(&mut c, p.on_error);
+            c.commands.set(Box::new(SubRunCmd)).unwrap();
+            c
+        }
         _ => sdk_context(),
     }
+}
+
+/// fresh harness state for one run of `p`
+fn prep(p: &Prog) {
+    hz_reset();
+    c03::reset_state(vec![0]);
+    with_hz(|h| h.side = p.subs.clone());
 }
 
 fn event_lines() -> Vec<usize> {
@@ -72,8 +147,7 @@ fn case_internal(t: &mut Tape, st: &mut Stats) -> Verdict {
     ensure_spellings();
     let p = gen_prog(t, st);
     // reference: the same program without a halt (cut by fuel when it does not terminate)
-    hz_reset();
-    c03::reset_state(vec![0]);
+    prep(&p);
     let r0 = run_text(&p.text, context_for(&p), REF_FUEL, None);
     let reference = events();
     if reference.is_empty() {
@@ -89,8 +163,7 @@ fn case_internal(t: &mut Tape, st: &mut Stats) -> Verdict {
     let keep_clone = t.flip();
     let mut nontrivial = false;
     for k in ks {
-        hz_reset();
-        c03::reset_state(vec![0]);
+        prep(&p);
         with_hz(|h| h.halt_at = Some(k as u64));
         // the embedder either keeps a clone of the flag or hands its only reference to the env
         let flag = Arc::new(AtomicBool::new(false));
@@ -98,6 +171,11 @@ fn case_internal(t: &mut Tape, st: &mut Stats) -> Verdict {
         st.class(if keep_clone { "embedder-keeps-flag-clone" } else { "flag-only-reachable-through-env" });
         let got = events();
         let snapshot = with_hz(|h| h.halt_snapshot.clone());
+        let inside_nested = with_hz(|h| h.counters.contains_key("halt-inside-nested-run"));
+        if inside_nested {
+            st.class("halt-raised-inside-nested-run");
+            nontrivial = true;
+        }
         let halting = &reference[k - 1];
         let kind_class = match halting.0.as_str() {
             "res" => match halting.1.first().map(|s| s.as_str()) {
@@ -132,7 +210,7 @@ fn case_internal(t: &mut Tape, st: &mut Stats) -> Verdict {
                     _ => None,
                 };
                 let inflight_line = lines.get(k - 1).map(|l| l + 1);
-                if terminating && r0.result.is_err() && kk == n && got.len() == kk && err_line.is_some() && err_line == inflight_line {
+                if !inside_nested && terminating && r0.result.is_err() && kk == n && got.len() == kk && err_line.is_some() && err_line == inflight_line {
                     st.class("in-flight-instruction-itself-failed");
                     continue;
                 }
@@ -151,7 +229,9 @@ fn case_internal(t: &mut Tape, st: &mut Stats) -> Verdict {
             return fail(&format!("C13/internal/{}/instruction-started-after-halt", kind_class), detail("further harness commands ran after the flag was raised", json!({"extra": got.len() - k})));
         }
         // variables: the snapshot taken by the halting command (+ the in-flight instruction's own output)
-        if let Some(snap) = snapshot {
+        if inside_nested {
+            // the snapshot was taken of the nested run's own copy of the variables: not comparable with the outer ones
+        } else if let Some(snap) = snapshot {
             let out_var = with_hz(|h| h.trace.get(h.halt_at.unwrap_or(1) as usize - 1).and_then(|e| e.out.clone()));
             let mut a = ctx.variables.clone();
             let mut b = snap.clone();
@@ -179,8 +259,7 @@ fn case_internal(t: &mut Tape, st: &mut Stats) -> Verdict {
 fn case_thread(t: &mut Tape, st: &mut Stats) -> Verdict {
     ensure_spellings();
     let p = gen_prog(t, st);
-    hz_reset();
-    c03::reset_state(vec![0]);
+    prep(&p);
     let r0 = run_text(&p.text, context_for(&p), REF_FUEL, None);
     let reference = events();
     if reference.len() < 2 || r0.depth_exceeded {
@@ -188,8 +267,7 @@ fn case_thread(t: &mut Tape, st: &mut Stats) -> Verdict {
     }
     let j = 1 + t.below(reference.len().min(300) - 1);
     let spin = t.below(2000) as u64;
-    hz_reset();
-    c03::reset_state(vec![0]);
+    prep(&p);
     let flag = Arc::new(AtomicBool::new(false));
     let gate = Arc::new(AtomicBool::new(false));
     let counter = Arc::new(AtomicU64::new(0));
@@ -269,7 +347,7 @@ pub fn property() -> Property {
     let _ = HashMap::<u8, u8>::new();
     Property {
         id: "C13",
-        rule: "(internal) programs over the scripted result-dictating command (goto loops, errors, on_error paths), structured while/for-in programs, and non-terminating wrappers (while true / while tick forever / label+goto) in which the k-th harness invocation raises the halt flag through the env it receives - k ranges over EVERY invocation of the un-halted reference run for runs of <= 12 invocations, 8 sampled otherwise - with the embedder either keeping a clone of the flag or not: the run must return Ok, its trace must equal the reference trace cut after invocation k, no further harness command may run, and the returned variables must equal the snapshot the halting command took (its own output variable aside). (thread) the same programs with a helper thread released by invocation j that sets the flag after a random spin: Ok, a prefix of the reference trace of length >= j, and at most one invocation after the counter value the helper observed. Non-trivial: the halt lands on a jumping, failing, error-handling or loop-condition instruction; distinct by (script, configuration)",
+        rule: "(internal) programs over the scripted result-dictating command (goto loops, errors, on_error paths), structured while/for-in programs, scripted programs some of whose instructions run another script to its end through the runner on the same halt flag (what an include-style embedder command does; the flag may be raised inside such a nested run, which must stop the outer run too), and non-terminating wrappers (while true / while tick forever / label+goto) in which the k-th harness invocation raises the halt flag through the env it receives - k ranges over EVERY invocation of the un-halted reference run for runs of <= 12 invocations, 8 sampled otherwise - with the embedder either keeping a clone of the flag or not: the run must return Ok, its trace must equal the reference trace cut after invocation k, no further harness command may run, and the returned variables must equal the snapshot the halting command took (its own output variable aside). (thread) the same programs with a helper thread released by invocation j that sets the flag after a random spin: Ok, a prefix of the reference trace of length >= j, and at most one invocation after the counter value the helper observed. Non-trivial: the halt lands on a jumping, failing, error-handling or loop-condition instruction; distinct by (script, configuration)",
         assumptions: &[
             "reference = the same program run without a halt (cut at 6000 instruction executions when it does not terminate); every top-level instruction of the generated programs invokes at most one harness command",
             "the second-thread schedule is sampled, not owned: a case whose run ends before the helper is released is discarded",
@@ -282,7 +360,7 @@ pub fn property() -> Property {
                     Tier::Thorough => Plan::Random { cases: 600_000, max_len: 800 },
                 },
                 case: case_internal,
-                min_classes: &[("halt-during-jumping-command", 1000), ("halt-during-failing-command", 500), ("halt-during-loop-condition-or-assignment", 1000), ("non-terminating-program", 1000), ("flag-only-reachable-through-env", 5000)],
+                min_classes: &[("halt-during-jumping-command", 1000), ("halt-during-failing-command", 500), ("halt-during-loop-condition-or-assignment", 1000), ("non-terminating-program", 1000), ("flag-only-reachable-through-env", 5000), ("halt-raised-inside-nested-run", 1000)],
             },
             Section {
                 name: "thread",
